@@ -27,7 +27,9 @@ structure Inv (s : State) : Prop where
     ∃ c' ∈ s.cands ++ s.pool, c'.id = c ∧ f.id ∈ c'.kids
   cdsLink : ∀ i p, s.regionOfCds i = some p → ∃ r ∈ s.regions, r.id = p ∧ i ∈ r.cdses
   parentFresh : ∀ k, s.nextId ≤ k → s.parentOf k = none
-  poolNoParent : ∀ c ∈ s.pool, s.parentOf c.id = none
+  /-- a constructed candidate cluster that is not in the record may have been handed to
+      `create_regions(candidate_clusters=[…])`: then its parent is a region of the record listing it -/
+  parentPool : ∀ c ∈ s.pool, ∀ p, s.parentOf c.id = some p → ∃ r ∈ s.regions, r.id = p ∧ c.id ∈ r.kids ++ r.subs
   kindC : ∀ f ∈ s.cands, f.kind = .cand
   kindS : ∀ f ∈ s.subs, f.kind = .sub
   kindPool : ∀ f ∈ s.pool, f.kind = .cand
@@ -165,7 +167,7 @@ theorem addSubregion_inv {s s' : State} {loc : Loc} (hi : Inv s) (h : addSubregi
     intro k hk
     have hk' : s.nextId + 1 ≤ k := hk
     exact hi.parentFresh k (by omega)
-  · exact hi.poolNoParent
+  · exact hi.parentPool
 
 
 theorem addProtocluster_ok {s s' : State} {loc : Loc} (h : addProtocluster s loc = .ok s') :
@@ -256,7 +258,7 @@ theorem addProtocluster_inv {s s' : State} {loc : Loc} (hi : Inv s) (h : addProt
     intro k hk
     have hk' : s.nextId + 1 ≤ k := hk
     exact hi.parentFresh k (by omega)
-  · exact hi.poolNoParent
+  · exact hi.parentPool
 
 
 
@@ -461,10 +463,10 @@ theorem step_mkCand_inv {s s' : State} {pids : List Nat} (hi : Inv s) (h : step 
       have : k ∉ ids ps := fun hm => by have := hpslt k hm; omega
       rw [if_neg this]
       exact hi.parentFresh k (by omega)
-    · -- poolNoParent
-      intro c' hc'
-      simp only [State.parentOf]
-      rw [hpar]
+    · -- parentPool
+      intro c' hc' p hp
+      simp only [State.parentOf] at hp
+      rw [hpar] at hp
       simp only [List.mem_append, List.mem_singleton] at hc'
       rcases hc' with hc' | rfl
       · have : c'.id ∉ ids ps := by
@@ -472,11 +474,11 @@ theorem step_mkCand_inv {s s' : State} {pids : List Nat} (hi : Inv s) (h : step 
           apply hnp.2.2.2.2 c'.id (hpsid _ hm)
           simp only [ids_append, List.mem_append]
           exact Or.inr (mem_ids.2 ⟨c', hc', rfl⟩)
-        rw [if_neg this]
-        exact hi.poolNoParent c' hc'
+        rw [if_neg this] at hp
+        exact hi.parentPool c' hc' p hp
       · have : c'.id ∉ ids ps := fun hm => by have := hpslt _ hm; omega
-        rw [if_neg this]
-        exact hi.parentFresh _ (by omega)
+        rw [if_neg this, hi.parentFresh _ (by omega)] at hp
+        cases hp
 
 
 
@@ -612,17 +614,14 @@ theorem addCandidate_inv {s s' : State} {id : Nat} (hi : Inv s) (h : addCandidat
   · intro f hf p hpar
     simp only [List.mem_append, hp.mem_iff, List.mem_cons] at hf
     rcases hf with (rfl | hf) | hf
-    · have := hi.poolNoParent f hxp.1
-      have hpar' : s.parentOf f.id = some p := hpar
-      rw [this] at hpar'
-      cases hpar'
+    · exact hi.parentPool f hxp.1 p hpar
     · exact hi.parentA f (by simp [hf]) p hpar
     · exact hi.parentA f (by simp [hf]) p hpar
   · intro f hf c hpar
     obtain ⟨c', hc', e1, e2⟩ := hi.parentP f hf c hpar
     exact ⟨c', (hset c').2 hc', e1, e2⟩
   · intro c hc
-    exact hi.poolNoParent c (List.mem_filter.1 hc).1
+    exact hi.parentPool c (List.mem_filter.1 hc).1
 
 
 
@@ -687,7 +686,7 @@ theorem regionOfCds_foldl (s : State) (xs : List Nat) (v : Nat) (k : Nat) :
 
 /-- constructing a region from areas of the record and adding it keeps the invariant -/
 theorem mkAddRegion_inv {s s1 s2 : State} {cands subs : List Feat} {r : Feat} (hi : Inv s)
-    (hc : ∀ f ∈ cands, f ∈ s.cands) (hs : ∀ f ∈ subs, f ∈ s.subs)
+    (hc : ∀ f ∈ cands, f ∈ s.cands ++ s.pool) (hs : ∀ f ∈ subs, f ∈ s.subs)
     (hmk : mkRegion s cands subs = .ok (s1, r)) (hadd : addRegion s1 r = .ok s2) :
     Inv s2 ∧ s2.protos = s.protos ∧ s2.cands = s.cands ∧ s2.subs = s.subs ∧ s2.pool = s.pool ∧
       s2.len = s.len ∧ s2.circular = s.circular ∧ s2.cds = s.cds ∧ s2.nextId = s.nextId := by
@@ -695,36 +694,27 @@ theorem mkAddRegion_inv {s s1 s2 : State} {cands subs : List Feat} {r : Feat} (h
   obtain ⟨index, hle, hno, rfl⟩ := addRegion_ok hadd
   refine ⟨?_, rfl, rfl, rfl, rfl, rfl, rfl, rfl, rfl⟩
   have hnp := nodup_parts hi
-  have hchild : ∀ k ∈ ids (subs ++ cands), k ∈ ids (s.cands ++ s.subs) := by
+  have hchild : ∀ k ∈ ids (subs ++ cands), k ∈ ids (s.cands ++ s.subs ++ s.pool) := by
     intro k hk
     simp only [ids_append, List.mem_append, mem_ids] at hk ⊢
     rcases hk with ⟨f, hf, e⟩ | ⟨f, hf, e⟩
-    · exact Or.inr ⟨f, hs f hf, e⟩
-    · exact Or.inl ⟨f, hc f hf, e⟩
+    · exact Or.inl (Or.inr ⟨f, hs f hf, e⟩)
+    · rcases List.mem_append.1 (hc f hf) with h | h
+      · exact Or.inl (Or.inl ⟨f, h, e⟩)
+      · exact Or.inr ⟨f, h, e⟩
   have hchildlt : ∀ k ∈ ids (subs ++ cands), k < s.nextId := by
     intro k hk
     obtain ⟨f, hf, e⟩ := mem_ids.1 (hchild k hk)
     have := hi.fresh f (by
       simp only [List.mem_append] at hf ⊢
-      rcases hf with hf | hf
+      rcases hf with (hf | hf) | hf
       · exact Or.inl (Or.inl (Or.inr hf))
-      · exact Or.inl (Or.inr hf))
+      · exact Or.inl (Or.inr hf)
+      · exact Or.inr hf)
     omega
-  have hchildnp : ∀ k ∈ ids (subs ++ cands), k ∉ ids s.protos ∧ k ∉ ids s.pool := by
-    intro k hk
-    have h1 := hchild k hk
-    refine ⟨fun hp => ?_, fun hp => ?_⟩
-    · apply hnp.2.2.2.2 k hp
-      simp only [ids_append, List.mem_append] at h1 ⊢
-      exact Or.inl h1
-    · have := hi.nodup
-      simp only [ids_append] at this
-      have h2 := (List.nodup_append.1 this).2.2
-      refine h2 k ?_ k hp rfl
-      simp only [ids_append, List.mem_append] at h1 ⊢
-      rcases h1 with h1 | h1
-      · exact Or.inl (Or.inr h1)
-      · exact Or.inr h1
+  have hchildnp : ∀ k ∈ ids (subs ++ cands), k ∉ ids s.protos := by
+    intro k hk hp
+    exact hnp.2.2.2.2 k hp (hchild k hk)
   have hpar : ∀ k, (((subs ++ cands).foldl (fun d c => d.set c.id (some s.nextRid)) s.parent).get k).join
       = if k ∈ ids (subs ++ cands) then some s.nextRid else s.parentOf k :=
     fun k => parentOf_foldl s (subs ++ cands) s.nextRid k
@@ -768,7 +758,7 @@ theorem mkAddRegion_inv {s s1 s2 : State} {cands subs : List Feat} {r : Feat} (h
       have hk' : k ∈ ids (subs ++ cands) := by
         simp only [ids_append, List.mem_append] at hk ⊢
         exact hk.symm
-      exact ⟨hchildlt k hk', (hchildnp k hk').1⟩
+      exact ⟨hchildlt k hk', hchildnp k hk'⟩
     · exact hi.kidsReg x hx k hk
   · -- parentA
     intro f hf p hp
@@ -788,7 +778,7 @@ theorem mkAddRegion_inv {s s1 s2 : State} {cands subs : List Feat} {r : Feat} (h
     intro f hf c hp
     simp only [State.parentOf] at hp
     rw [hpar] at hp
-    have : f.id ∉ ids (subs ++ cands) := fun hm => (hchildnp _ hm).1 (mem_ids.2 ⟨f, hf, rfl⟩)
+    have : f.id ∉ ids (subs ++ cands) := fun hm => hchildnp _ hm (mem_ids.2 ⟨f, hf, rfl⟩)
     rw [if_neg this] at hp
     exact hi.parentP f hf c hp
   · -- cdsLink
@@ -810,13 +800,20 @@ theorem mkAddRegion_inv {s s1 s2 : State} {cands subs : List Feat} {r : Feat} (h
     have : k ∉ ids (subs ++ cands) := fun hm => by have := hchildlt k hm; omega
     rw [if_neg this]
     exact hi.parentFresh k hk'
-  · -- poolNoParent
-    intro c hc'
-    simp only [State.parentOf]
-    rw [hpar]
-    have : c.id ∉ ids (subs ++ cands) := fun hm => (hchildnp _ hm).2 (mem_ids.2 ⟨c, hc', rfl⟩)
-    rw [if_neg this]
-    exact hi.poolNoParent c hc'
+  · -- parentPool
+    intro f hf p hp
+    simp only [State.parentOf] at hp
+    rw [hpar] at hp
+    by_cases hm : f.id ∈ ids (subs ++ cands)
+    · rw [if_pos hm] at hp
+      simp only [Option.some.injEq] at hp
+      refine ⟨{ r with cdses := cdsWithin s.cds r.loc }, (hmem _).2 (Or.inl rfl), by simp only [hrid, hp], ?_⟩
+      simp only [hrk, hrs]
+      simp only [ids_append, List.mem_append] at hm ⊢
+      exact hm.symm
+    · rw [if_neg hm] at hp
+      obtain ⟨x, hx, e1, e2⟩ := hi.parentPool f hf p hp
+      exact ⟨x, (hmem x).2 (Or.inr hx), e1, e2⟩
 
 
 
@@ -913,11 +910,13 @@ theorem clearRegions_inv {s : State} (hi : Inv s) : Inv (clearRegions s) := by
     split
     · rfl
     · exact hi.parentFresh k hk
-  · intro c hc
-    rw [clearRegions_parentOf]
-    split
-    · rfl
-    · exact hi.poolNoParent c hc
+  · intro c hc p hp
+    rw [clearRegions_parentOf] at hp
+    split at hp
+    · cases hp
+    · next hn =>
+      obtain ⟨r, hr, _, e2⟩ := hi.parentPool c hc p hp
+      exact absurd ⟨r, hr, e2⟩ hn
 
 theorem clearRegions_fields (s : State) :
     (clearRegions s).regions = [] ∧ (clearRegions s).protos = s.protos ∧ (clearRegions s).cands = s.cands ∧
@@ -1069,9 +1068,9 @@ theorem mergeFirstLast_perm {w : Option Int} (n : Nat) {secs secs' : List Sec}
     · simp only [pure, Except.pure, Except.ok.injEq] at h; subst h; exact List.Perm.refl _
 
 /-- the sections of `create_regions`, when they can be computed, hold every area exactly once -/
-theorem sections_perm {s : State} {secs : List Sec} (hnd : (ids (s.cands ++ s.subs)).Nodup)
-    (h : sections s = .ok secs) : ((secs.map (·.2)).flatten).Perm (s.cands ++ s.subs) := by
-  simp only [sections, bind, Except.bind] at h
+theorem sectionsOf_perm {w : Option Int} {cands subs : List Feat} {secs : List Sec} (hnd : (ids (cands ++ subs)).Nodup)
+    (h : sectionsOf w cands subs = .ok secs) : ((secs.map (·.2)).flatten).Perm (cands ++ subs) := by
+  simp only [sectionsOf, bind, Except.bind] at h
   split at h
   · cases h
   · next areas hareas =>
@@ -1092,5 +1091,8 @@ theorem sections_perm {s : State} {secs : List Sec} (hnd : (ids (s.cands ++ s.su
         rw [hflat] at this
         exact this.trans hp
 
+theorem sections_perm {s : State} {secs : List Sec} (hnd : (ids (s.cands ++ s.subs)).Nodup)
+    (h : sections s = .ok secs) : ((secs.map (·.2)).flatten).Perm (s.cands ++ s.subs) :=
+  sectionsOf_perm hnd h
 
 end ASV.Regions
